@@ -66,6 +66,16 @@ impl PublisherQos {
     }
 }
 
+impl PublisherQos {
+    pub(crate) fn check_immutability(&self, other: &Self) -> DdsResult<()> {
+        if self.presentation != other.presentation {
+            Err(DdsError::ImmutablePolicy)
+        } else {
+            Ok(())
+        }
+    }
+}
+
 impl Default for PublisherQos {
     fn default() -> Self {
         Self::const_default()
